@@ -159,7 +159,7 @@ fn(HS + ".app_send", params={"message": "none | msg(headers:short;links:short)"}
         "n_emitted('sent') == 3 and isinstance(emitted('sent')[0], Response) and emitted('sent')[0].status_code == 500 "
         "and isinstance(emitted('sent')[1], EndBody) and isinstance(emitted('sent')[2], StreamClosed))", "C05,C07"),
        ("C05.http.none.incomplete", "implies(message is None and not old(self.closed) and old(self.state) in (ASGIHTTPState.RESPONSE, ASGIHTTPState.TRAILERS), "
-        "n_emitted('sent') == 1 and isinstance(emitted('sent')[0], StreamClosed))", "C05,C07"),
+        "n_emitted('sent') == 1 and isinstance(emitted('sent')[0], StreamClosed))", "C05,C07,C06"),
        ("C03.noop.none-after-close", "implies(message is None and old(self.closed), n_emitted('sent') == 0 and n_emitted('puts') == 0)", "C03"),
        # ---- C12: a call that returns normally was valid for the state it was made in
        ("C12.table.start", "implies(message is not None and message['type'] == 'http.response.start', old(self.state) == ASGIHTTPState.REQUEST)", "C12"),
